@@ -250,9 +250,12 @@ def run_history(P):
                 loop.call_later(rng.uniform(0.2, 2.0), up)
 
         stop_done = loop.create_future()
+        stop_issued = loop.create_future()
 
         async def do_stop():
             stopping["flag"] = True
+            if not stop_issued.done():
+                stop_issued.set_result(None)
             coord_reachable = True
             gen = None
             if wl == "group_consumer":
@@ -296,16 +299,39 @@ def run_history(P):
             loop.call_later(P["horizon"], start_stop)
         bound = stop_bound(P)
         H["bound"] = bound
-        # wait for stop() to be issued and to return (or 10 x bound)
+        # wait for stop() to be issued (event k may come late in an idle run), then - counted from that moment - for it
+        # to return or HANG_FACTOR x bound to pass
         try:
-            await asyncio.wait_for(asyncio.shield(stop_done), P["horizon"] + 20.0 + HANG_FACTOR * bound)
+            await asyncio.wait_for(asyncio.shield(stop_issued), P["horizon"] + 60.0 + 4 * bound)
         except asyncio.TimeoutError:
-            H["stop"]["hung"] = True
+            pass
+        if H["stop"]:
+            try:
+                await asyncio.wait_for(asyncio.shield(stop_done), HANG_FACTOR * bound)
+            except asyncio.TimeoutError:
+                H["stop"]["hung"] = True
         if not H["stop"]:
-            H["errors"].append("stop() was never issued (stop event beyond the end of the run)")
+            # event k of the reference run was never reached in this run (the disturbance changed the event sequence)
+            H["stop_not_issued"] = True
+            for t in bg:
+                t.cancel()
             return
         H["events_total"] = loop.events
-        # two grace turns of the loop, no virtual time
+        # API calls the application had in progress when it stopped the client (a send() waiting for metadata, a
+        # getmany() in its timeout) are the application's, not something the client left behind.  They get a bounded
+        # time to return on their own (whether they do is recorded as an observation: the statement speaks of LATER
+        # calls only), then the application gives them up (cancels its own tasks), then two grace turns of the loop
+        # with no virtual time, then the scan.
+        if H["stop"].get("t_ret") is not None:
+            mine = [t for t in bg if not t.done()]
+            if wl != "producer":
+                mine = mine[:1]          # the poller; the feeder only touches the simulated logs
+            if mine:
+                _d, pend = await asyncio.wait(mine, timeout=2 * P["request_timeout_ms"] / 1000.0 + 3.0)
+                H["observations"] = {"calls_in_progress_at_stop": len(mine), "of_which_never_returned": len(pend)}
+            for t in bg:
+                t.cancel()
+            await asyncio.wait(bg, timeout=1.0)
         await asyncio.sleep(0)
         await asyncio.sleep(0)
         if H["stop"].get("t_ret") is not None:
@@ -404,6 +430,9 @@ def judge(H):
             if got != want:
                 V.append((f"api_call_after_stop_{'hangs' if got == 'hung' else 'does_not_raise_' + want}",
                           f"[{cls}] {name} after stop(): {got} (expected {want})", detail))
+    ob = H.get("observations") or {}
+    st["obs_calls_in_progress_at_stop"] = ob.get("calls_in_progress_at_stop", 0)
+    st["obs_calls_in_progress_that_never_returned"] = ob.get("of_which_never_returned", 0)
     if P["workload"] == "group_consumer" and H.get("joined") and s.get("coordinator_reachable") and s.get("member_ids_at_stop") \
             and P["cluster"] == "healthy" and not sum(H["fault_hits"].values()):
         st["leave_group_checked"] = 1
